@@ -271,7 +271,12 @@ def get_render_info(route):
     render_arg = route.render_arg
     if route.render_factory and not callable(render_arg):
         ret['type'] = route.render_factory.__class__.__name__
-        ret['arg'] = render_arg
+        if isinstance(render_arg, (type(u''), type(''), int, float, bool)):
+            ret['arg'] = render_arg
+        else:
+            # whatever the render factory takes: show it, the JSON view
+            # cannot serialize arbitrary objects
+            ret['arg'] = repr(render_arg)
     elif render_arg is None:
         ret['arg'] = None
     else:
